@@ -145,7 +145,9 @@ def _check(ctx: Ctx, only=None) -> None:
             ok = g is not None and isinstance(g.test, ast.Compare) and len(g.test.ops) == 1 and (
                 (isinstance(g.test.ops[0], ast.Lt) and src(g.test.left) == acc and src(g.test.comparators[0]) == req) or
                 (isinstance(g.test.ops[0], ast.Gt) and src(g.test.left) == req and src(g.test.comparators[0]) == acc))
-            ctx.check(ok, "PAD", f"{q}: pads only when measured < requested", function=q,
+            from ..astutil import extra_conditions
+            ok = ok and not extra_conditions(c, g.test)
+            ctx.check(ok, "PAD", f"{q}: pads exactly when measured < requested", function=q,
                       construct="padding guard is not `measured < requested`", message=f"`{short(getattr(g, 'test', None))}`", file=fi.file, node=c)
             ua = UnitAnalysis(p, fi)
             if g is not None and isinstance(g.test, ast.Compare):
@@ -186,6 +188,26 @@ def _check(ctx: Ctx, only=None) -> None:
                 ok = (isinstance(g.test.ops[0], ast.Gt) and l == dur and r == Sym.atom(mx)) or (isinstance(g.test.ops[0], ast.Lt) and r == dur and l == Sym.atom(mx))
             ctx.check(ok, "CUT", f"{q}: shortens exactly the notes longer than {mx}", function=q,
                       construct="cutoff guard is not `end - onset > maximum`", message=f"`{short(getattr(g, 'test', None))}`", file=fi.file, node=w.node)
+            # nothing but "this pairing is a closed note" may stand between a pairing and the length test
+            from ..astutil import path_conditions
+            extra = []
+            for t, holds in path_conditions(w.node):
+                if g is not None and t is g.test and holds:
+                    continue
+                txt = src(t)
+                is_len = isinstance(t, ast.Compare) and len(t.ops) == 1 and isinstance(t.left, ast.Call) and isinstance(t.left.func, ast.Name) \
+                    and t.left.func.id == "len" and src(t.left.args[0]) == pair and isinstance(t.comparators[0], ast.Constant)
+                if is_len:
+                    c0, op = t.comparators[0].value, type(t.ops[0])
+                    closed_when_true = (op is ast.Eq and c0 == 2) or (op is ast.Gt and c0 == 1) or (op is ast.GtE and c0 == 2) or (op is ast.NotEq and c0 == 1)
+                    closed_when_false = (op is ast.Eq and c0 == 1) or (op is ast.Lt and c0 == 2) or (op is ast.LtE and c0 == 1) or (op is ast.NotEq and c0 == 2)
+                    if (holds and closed_when_true) or (not holds and closed_when_false):
+                        continue
+                extra.append(f"`{short(t, 60)}` is {'true' if holds else 'false'}")
+            ctx.check(not extra, "CUT", f"{q}: every closed note reaches the length test", function=q,
+                      construct="cutoff applies its length test only to some notes",
+                      message=f"the rewrite additionally requires {', '.join(extra)}: notes longer than {mx} outside that condition keep their length",
+                      file=fi.file, node=w.node)
         from ..engines.mustflow import check_sorted_invariant
         nsi = check_sorted_invariant(ctx, "SORT", methods={"cutoff"})
         ctx.floor("cutoff re-sort obligation", nsi, 1)
